@@ -106,22 +106,30 @@ def unpack (lines : List Int) (offset : Int) : Int × Int :=
 
 def inFile (f : MFile) (p : Int) : Bool := decide (f.base ≤ p) && decide (p ≤ f.base + f.size)
 
+/-- the `last` cache test of `(*FileSet).file`: `f := s.last; f != nil && f.base <= p && p <= f.base+f.size` -/
+def cacheHit (s : MSet) (p : Int) : Option Nat :=
+  match s.last with
+  | some k => match s.files[k]? with
+    | some f => if inFile f p then some k else none
+    | none => none
+  | none => none
+
+/-- the search of `(*FileSet).file`: `searchFiles` (= `sort.Search(a[i].base > x) - 1`) and the upper-bound test -/
+def searchFile (s : MSet) (p : Int) : Option Nat :=
+  match searchEntry (s.files.map (·.base)) p with
+  | some (i, _) =>
+    match s.files[i]? with
+    | some f => if p ≤ f.base + f.size then some i else none
+    | none => none
+  | none => none
+
 /-- `(*FileSet).file`: returns the index found and the new value of the `last` cache -/
 def fileLookup (s : MSet) (p : Int) : Option Nat × Option Nat :=
-  let hit : Option Nat :=
-    match s.last with
-    | some k => match s.files[k]? with
-      | some f => if inFile f p then some k else none
-      | none => none
-    | none => none
-  match hit with
+  match cacheHit s p with
   | some k => (some k, s.last)
   | none =>
-    match searchEntry (s.files.map (·.base)) p with
-    | some (i, _) =>
-      match s.files[i]? with
-      | some f => if p ≤ f.base + f.size then (some i, some i) else (none, s.last)
-      | none => (none, s.last)
+    match searchFile s p with
+    | some i => (some i, some i)
     | none => (none, s.last)
 
 def filePosition (f : MFile) (p : Int) : MPosition :=
